@@ -162,9 +162,15 @@ class Interp(ExprMixin, CallMixin, AnyMixin):
         else:
             raise Unsupported("assign target")
 
-    def setattr_value(self, obj, attr, v, node=None):
+    def setattr_value(self, obj, attr, v, node=None, raw=False):
         obj = self.force(obj)
         if isinstance(obj, Obj):
+            if not raw and obj.cls is not None:
+                # a class that defines __setattr__ intercepts every attribute assignment (object.__setattr__ is the raw store)
+                sa = self.tree.find_method(obj.cls, "__setattr__")
+                if sa is not None:
+                    self.call_function(FuncV(sa), [obj, attr, v], {}, node)
+                    return
             if obj.frozen and not self._in_init_of(obj):
                 self.raise_builtin("AttributeError", node)
             for h in self.field_hooks:
